@@ -172,7 +172,18 @@ func (c *c12Runner) runRestoreNonEmpty(backend string, seed uint64, size uint64,
 			order = order[1:]
 		}
 	}
-	for _, i := range order {
+	again := -1
+	if r.Chance(1, 3) {
+		again = r.Intn(len(order))
+	}
+	for n, i := range order {
+		if n == again {
+			if err = ndb.StartMultipartInsert(ver); err != nil {
+				c.fail("spec", "spec-repeated-start-multipart-refused", "StartMultipartInsert of the version in progress: "+err.Error())
+				return
+			}
+			c.res.Count("restorene:start-again")
+		}
 		if _, err = rs.RestoreChunk(ctx, uint64(i), bytes.NewReader(cd.chunks[i])); err != nil {
 			if i == transient && errors.Is(err, checkpoint.ErrChunkAlreadyRestored) {
 				c.fail("spec", "spec-restore-chunk-lost-after-transient-failure", fmt.Sprintf("%s: RestoreChunk(%d) failed once under a cancelled context; the retry with the genuine bytes is refused as already restored, so the version would be finalized without this chunk's nodes", backend, i))
